@@ -281,6 +281,15 @@ def r2d_boundaries(F, res):
                     if a[0] == "fn":
                         return [a[1]]
                     return []
+                def ws_pred_exact(a):
+                    # exactly char::is_whitespace (the closure answers it for its argument, or the function item itself): a
+                    # narrower or wider test changes which characters count as skippable
+                    if a[0] == "fn":
+                        return a[1].endswith("is_whitespace") and "ascii" not in a[1]
+                    if a[0] == "closure":
+                        from . import idiom
+                        return bool(idiom.predicate_is(F, F.fns.get(a[1]), "char::methods::<impl char>::is_whitespace"))
+                    return False
                 maps = [x for x in calls if x[1].endswith("Iterator::map") and len(x[2]) > 1 and x[2][1][0] in ("closure", "fn")]
                 tws = [x for x in calls if x[1].endswith("Iterator::take_while") and len(x[2]) > 1 and x[2][1][0] in ("closure", "fn")]
                 idx = [x for x in calls if census.INDEX_CALL.search(x[1]) and len(x[2]) > 1]
@@ -288,7 +297,7 @@ def r2d_boundaries(F, res):
                                for x in idx)
                 if sl[0] == "call" and sl[1].endswith("Iterator::sum") and has("str>::chars") and maps and tws and from_pos \
                         and any("len_utf8" in cc for cc in fn_callees(maps[0][2][1])) \
-                        and any("is_whitespace" in cc for cc in fn_callees(tws[0][2][1])):
+                        and ws_pred_exact(tws[0][2][1]):
                     ok = True
                 else:
                     why = "the skipped length is %s - not the sum of len_utf8 over the leading whitespace chars of input[pos..]" % fmt(sl)[:200]
@@ -332,6 +341,57 @@ def r3_regex(F, res):
                       "rustemo-compiler/src/generator/base.rs")
     else:
         res.ok(rid, "regex-validated", None, "%d regex API calls in the compiler" % calls)
+
+
+def r2h_slice_ranges(F, res):
+    """`input.slice(a..b)` counts on a <= b (it subtracts): every call site outside the Input impls builds its range from
+    constants, from (len - k, len), or under a dominating ORDER comparison of the two positions it takes the ends from
+    (`!=` is not an order: a synthetic STOP token sits before the position)."""
+    rid = res.rule("C15-R2h", "every Input::slice(a..b) call of the runtime has a well-formed range by construction: constants, "
+                   "(len - k .. len), or a dominating `end > start` / `>=` on the positions the two ends come from", floor=3)
+    for pth, f in sorted(F.fns.items()):
+        if f.crate != "rustemo" or not f.has_body() or " as rustemo::input::Input>" in pth or f.d.get("inlined_into"):
+            continue
+        tb = None
+        for b, tm in f.calls():
+            if not mir.call_matches(callee(tm), "Input::slice") or len(tm["args"]) < 2:
+                continue
+            tb = tb or mir.TermBuilder(f, F)
+            rg = tb.operand(tm["args"][1])
+            where = "%s:%s" % (f.file, tm.get("line"))
+            key = "slice/%s" % mir.strip_generics(pth).split("::{closure")[0].rsplit("::", 1)[-1]
+            if not (isinstance(rg, tuple) and rg[0] == "agg" and rg[1].endswith("Range::Range")):
+                res.anchor_lost(rid, "range of a slice call not recognised (%s)" % fmt(rg)[:60], where)
+                continue
+            d = dict(rg[2])
+            a, e = d.get("start"), d.get("end")
+            if a[0] == "const" and e[0] == "const" and isinstance(a[1], int) and isinstance(e[1], int) and a[1] <= e[1]:
+                res.ok(rid, key + "/const", where, "%s..%s" % (a[1], e[1]))
+                continue
+            if a[0] == "bin" and a[1].startswith("Sub") and a[2] == e:
+                res.ok(rid, key + "/tail", where, "len - k .. len")
+                continue
+            # the values the two ends are the `.pos` of
+            def owner(x):
+                return x[1] if isinstance(x, tuple) and x[0] == "field" and x[2] == "pos" else x
+            xa, xe = owner(a), owner(e)
+            okg = False
+            for (op, vals, dd, sw) in census.dominating_guards(f, b, tb):
+                base, nots = census.strip_not(op)
+                truth = census.edge_true(vals, nots)
+                if not (isinstance(base, tuple) and base[0] == "call" and len(base[2]) == 2):
+                    continue
+                m = mir.strip_generics(base[1]).rsplit("::", 1)[-1]
+                l, r = base[2]
+                # end > start / end >= start, in either spelling and polarity
+                if (m in ("gt", "ge") and truth and l == xe and r == xa) or (m in ("lt", "le") and truth and l == xa and r == xe) or \
+                        (m == "lt" and not truth and l == xe and r == xa) or (m == "gt" and not truth and l == xa and r == xe):
+                    okg = True
+            if okg:
+                res.ok(rid, key + "/ordered", where, "under end > start")
+            else:
+                res.violation(rid, key + "/ordered", "input.slice(%s .. %s) is not under a dominating order comparison of its two ends: "
+                              "with end < start the slice subtracts below zero (panic)" % (fmt(a)[:60], fmt(e)[:60]), where)
 
 
 def r4_error_cells(ctx, res):
@@ -440,6 +500,30 @@ def r5_no_forest_traversal(F, res):
             len(recursive), ncalls))
 
 
+def r6_generated_recognizers(ctx, res):
+    """The generated recogniser runs on every token attempt with text the user controls: it answers Some/None and never
+    unwraps what the regex engine returns (fancy-regex answers Err on its backtrack limit)."""
+    from . import gen
+    rid = res.rule("C15-R6", "generated TokenRecognizer::recognize has no unwrap/expect/panic!/unreachable! (a regex engine error or a "
+                   "failed match is `not recognised`, not a panic)", floor=40)
+    for fset in ("gen-functions",):
+        for g in gen.load_set(ctx.dir(fset)):
+            if g.parse_error:
+                continue
+            im = g.impl("TokenRecognizerT<", "TokenRecognizer")
+            name = (g.name or "").replace("target:", "")
+            f = [x for x in (im or {}).get("items", []) if x.get("ident") == "recognize"]
+            if not f:
+                continue
+            body = gen.flat(f[0]["body"]).replace(" ", "")
+            hits = [k for k in (".unwrap()", ".expect(", "panic!(", "unreachable!(", ".unwrap_unchecked(") if k in body]
+            if hits:
+                res.violation(rid, "generated-recognizer-panics", "%s: the generated recogniser contains %s: a lexer attempt can panic "
+                              "the parser" % (name, ", ".join(hits)), g.entry.get("parser_file_rel"))
+            else:
+                res.ok(rid, name, g.entry.get("parser_file_rel"), "no panicking construct")
+
+
 def run(ctx, res):
     F = ctx.facts("core")
     rid = res.rule("C15-R1", "may-panic census of the runtime crate: every panic-capable construct reachable from the public "
@@ -450,9 +534,11 @@ def run(ctx, res):
         res.notes.append("triage row no longer matches any site: " + k)
     r2_guards(F, res)
     r2d_boundaries(F, res)
+    r2h_slice_ranges(F, res)
     r3_regex(F, res)
     r4_error_cells(ctx, res)
     r5_no_forest_traversal(F, res)
+    r6_generated_recognizers(ctx, res)
     from . import controls
     controls.run(ctx, res, "C15")
     res.extra.update({"obligations": stats["sites"], "discharged": stats["sites"] - stats["new"] - stats["finding"],
